@@ -1188,3 +1188,113 @@ class Translator2TN(Translator2T):
             else:
                 setattr(new, f, Translator2TN._subst(v, target, name))
         return new
+
+
+# =====================================================================================================================
+# Rules2N / Translator2N — APPENDED for C20 (robustness against behaviour-preserving refactorings; nothing above changes).
+#   * a call `helper(a, b, k=c)` of a plain Python function DEFINED IN THE SAME MODULE as the function being translated
+#     (and not covered by a rule) is translated by INLINING: the helper's body is translated with the same rules and its
+#     parameters bound to the translated arguments (positional, keyword, defaults).  A helper without raise / monadic
+#     operand is inlined as a pure term, otherwise as a monadic term flagged "bind" (so it is hoisted like any call
+#     that may raise; its `ret` / `raise` templates must then elaborate without an expected type: `Except.ok ({e})`
+#     rather than `.ok ({e})`).  A helper is just a function to translate;
+#   * `return None` is the same as a bare `return` / falling off the end when `Rules2N.none_is_end` is set.
+# =====================================================================================================================
+
+class Rules2N(Rules2M):
+    def __init__(self, none_is_end=False, **kw):
+        Rules2M.__init__(self, **kw)
+        self.none_is_end = none_is_end
+
+
+class Translator2N(Translator2M):
+    MAX_INLINE_DEPTH = 4
+
+    def __init__(self, rules, _depth=0):
+        Translator2M.__init__(self, rules)
+        self._globals = {}
+        self._module = None
+        self._depth = _depth
+        self.inlined = []
+
+    def function(self, fn, arg_names, ind=2, allow_unused=()):
+        self._globals = getattr(fn, "__globals__", {}) or {}
+        self._module = getattr(fn, "__module__", None)
+        return Translator2M.function(self, fn, arg_names, ind=ind, allow_unused=allow_unused)
+
+    def _helper(self, node, scope):
+        """the module-level function a call node refers to, or None"""
+        import types
+        if not (isinstance(node, ast.Call) and isinstance(node.func, ast.Name)):
+            return None
+        name = node.func.id
+        if name in scope or name in self.r.names:
+            return None
+        f = self._globals.get(name)
+        if isinstance(f, types.FunctionType) and f.__module__ == self._module:
+            return f
+        return None
+
+    def _inline(self, f, node, scope):
+        if self._depth >= self.MAX_INLINE_DEPTH:
+            raise Untranslatable("helper calls nested too deeply at `%s`" % ast.unparse(node))
+        fnode, _src = source_ast(f)
+        a = fnode.args
+        if a.vararg or a.kwarg or a.kwonlyargs or a.posonlyargs:
+            raise Untranslatable("helper `%s` with a non-trivial signature" % f.__name__)
+        params = [x.arg for x in a.args]
+        if len(node.args) > len(params) or any(isinstance(x, ast.Starred) for x in node.args):
+            raise Untranslatable("call `%s` does not fit the helper's signature" % ast.unparse(node))
+        bound = {}
+        for p, arg in zip(params, node.args):
+            bound[p] = self.pure(arg, scope)
+        for kw in node.keywords:
+            if kw.arg is None or kw.arg not in params or kw.arg in bound:
+                raise Untranslatable("call `%s` does not fit the helper's signature" % ast.unparse(node))
+            bound[kw.arg] = self.pure(kw.value, scope)
+        defaults = dict(zip(params[len(params) - len(a.defaults):], a.defaults))
+        for p in params:
+            if p not in bound:
+                if p not in defaults:
+                    raise Untranslatable("call `%s` misses the argument `%s`" % (ast.unparse(node), p))
+                bound[p] = self.pure(defaults[p], {})
+        has_raise = any(isinstance(n, (ast.Raise, ast.Assert)) for st in fnode.body for n in ast.walk(st))
+
+        def attempt(monadic):
+            import copy
+            r = copy.copy(self.r)
+            if not monadic:
+                r.ret = "{e}"
+            sub = type(self)(r, _depth=self._depth + 1)
+            sub._globals, sub._module = getattr(f, "__globals__", {}) or {}, f.__module__
+            text = sub.block(list(fnode.body), dict(bound), 1, sub.top_ctx())
+            self.used_rules |= sub.used_rules
+            return text, (sub._tmp > 0)
+        if not has_raise:
+            text, hoisted = attempt(False)
+            if not hoisted and "bind fun" not in text:
+                self.inlined.append(f.__name__)
+                return "(\n%s)" % text, ""
+        text, _h = attempt(True)
+        self.inlined.append(f.__name__)
+        return "(\n%s)" % text, "bind"
+
+    def expr(self, node, scope):
+        for i, (pat, tmpl, flag) in enumerate(self.r.expr):
+            env = {}
+            if match(pat, node, env):
+                self.used_rules.add(i)
+                return tmpl.format(**{k: self.pure(v, scope) for k, v in env.items()}), flag
+        f = self._helper(node, scope)
+        if f is not None:
+            return self._inline(f, node, scope)
+        return Translator2M.expr(self, node, scope)
+
+    def _block1(self, stmts, scope, ind, ctx):
+        if stmts and getattr(self.r, "none_is_end", False):
+            st = stmts[0]
+            if isinstance(st, ast.Return) and isinstance(st.value, ast.Constant) and st.value.value is None:
+                if self.r.end is None:
+                    raise Untranslatable("return None")
+                return ctx.exit(self._fmt(self.r.end, scope), scope, ind)
+        return Translator2M._block1(self, stmts, scope, ind, ctx)
